@@ -204,14 +204,16 @@ impl Disassemble for dr::Module {
 fn disas_constant(inst: &dr::Instruction, type_tracker: &tracker::TypeTracker) -> String {
     debug_assert_eq!(inst.class.opcode, spirv::Op::Constant);
     debug_assert_eq!(inst.operands.len(), 1);
-    let literal_type = type_tracker.resolve(inst.result_type.unwrap());
-    match inst.operands[0] {
-        LiteralBit32(value) => disas_instruction(inst, " ", |_| {
-            disas_literal_bit_operand(value, &literal_type.unwrap())
-        }),
-        LiteralBit64(value) => disas_instruction(inst, " ", |_| {
-            disas_literal_bit_operand(value, &literal_type.unwrap())
-        }),
+    // The type may be undeclared, or not a scalar numeric one (the module may come from
+    // an arbitrary binary): print the raw bit pattern then.
+    let literal_type = inst.result_type.and_then(|t| type_tracker.resolve(t));
+    match (inst.operands.first(), literal_type) {
+        (Some(&LiteralBit32(value)), Some(ty)) => {
+            disas_instruction(inst, " ", |_| disas_literal_bit_operand(value, &ty))
+        }
+        (Some(&LiteralBit64(value)), Some(ty)) => {
+            disas_instruction(inst, " ", |_| disas_literal_bit_operand(value, &ty))
+        }
         _ => inst.disassemble(),
     }
 }
